@@ -4,7 +4,7 @@
    model theorems (proved in EFModel.C19_Return1D_proofs / EFModel.C19_Commit). *)
 From Coquelicot Require Import Coquelicot.
 From Coq Require Import Reals List Lra Bool.
-From EFModel Require Import C19_Return1D C19_Return1D_proofs C19_Commit C19_Lift C19_PlaneStress C19_Radial C19_Tangent C19_Units C19_KuhnTucker C19_Tangent2 C19_Unique C19_UniqueGen C19_Exist.
+From EFModel Require Import C19_Return1D C19_Return1D_proofs C19_Commit C19_Lift C19_PlaneStress C19_Radial C19_Tangent C19_Units C19_KuhnTucker C19_Tangent2 C19_Unique C19_UniqueGen C19_Exist C19_RadialNewton.
 From EFP Require Import Gen_C19.
 Import List ListNotations.
 Open Scope R_scope.
@@ -123,20 +123,67 @@ Proof.
   - intro x. auto_derive; [exact I | field].
 Qed.
 
+(* canonical forms: the translated Voce lambdas are compared up to ring/field rewriting of the
+   exponent and of the outer expression, so equivalent spellings of the source do not matter *)
+Definition voce_psi (Q b x : R) : R := Q * (x + exp (- (b * x)) / b - 1 / b).
+Definition voce_R (Q b x : R) : R := Q * (1 - exp (- (b * x))).
+Definition voce_dR (Q b x : R) : R := Q * b * exp (- (b * x)).
+
+Ltac norm_exp b x := repeat match goal with
+  | |- context [exp ?a] => progress (replace a with (- (b * x)) by ring)
+  end.
+
+Lemma gen_voce_canonical : forall Q b x, 0 < b ->
+    gen_voce_psi Q b x = voce_psi Q b x /\ gen_voce_R Q b x = voce_R Q b x /\ gen_voce_dR Q b x = voce_dR Q b x.
+Proof.
+  intros Q b x Hb. unfold gen_voce_psi, gen_voce_R, gen_voce_dR, voce_psi, voce_R, voce_dR.
+  split; [|split]; norm_exp b x; [field; lra | ring | ring].
+Qed.
+
 Theorem gen_voce_hardening : forall Q b, 0 <= Q -> 0 < b ->
     (forall x y, x <= y -> gen_voce_R Q b x <= gen_voce_R Q b y) /\ gen_voce_R Q b 0 = 0 /\
     (forall x, is_derive (gen_voce_psi Q b) x (gen_voce_R Q b x)) /\
     (forall x, is_derive (gen_voce_R Q b) x (gen_voce_dR Q b x)).
 Proof.
-  intros Q b HQ Hb. unfold gen_voce_R, gen_voce_psi, gen_voce_dR. split; [|split; [|split]].
-  - intros x y Hxy. apply Rmult_le_compat_l; [assumption|].
-    assert (exp (- b * y) <= exp (- b * x)).
+  intros Q b HQ Hb.
+  assert (ER : forall x, gen_voce_R Q b x = voce_R Q b x) by (intro x; apply (gen_voce_canonical Q b x Hb)).
+  assert (EP : forall x, gen_voce_psi Q b x = voce_psi Q b x) by (intro x; apply (gen_voce_canonical Q b x Hb)).
+  assert (ED : forall x, gen_voce_dR Q b x = voce_dR Q b x) by (intro x; apply (gen_voce_canonical Q b x Hb)).
+  split; [|split; [|split]].
+  - intros x y Hxy. rewrite (ER x), (ER y). unfold voce_R. apply Rmult_le_compat_l; [assumption|].
+    assert (exp (- (b * y)) <= exp (- (b * x))).
     { destruct (Rle_lt_or_eq_dec _ _ Hxy) as [Hlt | ->]; [|lra].
       left. apply exp_increasing. nra. }
     lra.
-  - replace (- b * 0) with 0 by ring. rewrite exp_0. ring.
-  - intro x. auto_derive; [lra | field; lra].
-  - intro x. auto_derive; [exact I | ring].
+  - rewrite ER. unfold voce_R. replace (- (b * 0)) with 0 by ring. rewrite exp_0. ring.
+  - intro x. rewrite ER. apply (is_derive_ext (voce_psi Q b)); [intro t; symmetry; apply EP|].
+    unfold voce_psi, voce_R. auto_derive; [lra | field; lra].
+  - intro x. rewrite ED. apply (is_derive_ext (voce_R Q b)); [intro t; symmetry; apply ER|].
+    unfold voce_R, voce_dR. auto_derive; [exact I | ring].
+Qed.
+
+(* ... and they are concave with slope dR >= 0 (tangent-line form): the hypotheses of the monotone
+   Newton theorem *)
+Theorem gen_hardening_concave :
+    (forall H, 0 <= H -> (forall x, 0 <= gen_linear_dR H x) /\
+                         (forall x y, gen_linear_R H y <= gen_linear_R H x + gen_linear_dR H x * (y - x))) /\
+    (forall Q b, 0 <= Q -> 0 < b -> (forall x, 0 <= gen_voce_dR Q b x) /\
+                                    (forall x y, gen_voce_R Q b y <= gen_voce_R Q b x + gen_voce_dR Q b x * (y - x))).
+Proof.
+  split.
+  - intros H HH. unfold gen_linear_R, gen_linear_dR. split; intros; nra.
+  - intros Q b HQ Hb.
+    assert (ER : forall x, gen_voce_R Q b x = voce_R Q b x) by (intro x; apply (gen_voce_canonical Q b x Hb)).
+    assert (ED : forall x, gen_voce_dR Q b x = voce_dR Q b x) by (intro x; apply (gen_voce_canonical Q b x Hb)).
+    split.
+    + intro x. rewrite ED. unfold voce_dR. pose proof (exp_pos (- (b * x))). apply Rmult_le_pos; [apply Rmult_le_pos; lra | lra].
+    + intros x y. rewrite (ER x), (ER y), (ED x). unfold voce_R, voce_dR.
+      pose proof (exp_ineq1_le (- (b * (y - x)))) as Hi. pose proof (exp_pos (- (b * x))) as Hp.
+      assert (E : exp (- (b * y)) = exp (- (b * x)) * exp (- (b * (y - x)))) by (rewrite <- exp_plus; f_equal; ring).
+      rewrite E.
+      assert (exp (- (b * x)) * (1 + - (b * (y - x))) <= exp (- (b * x)) * exp (- (b * (y - x)))) by (apply Rmult_le_compat_l; lra).
+      assert (Q * (exp (- (b * x)) * (1 + - (b * (y - x)))) <= Q * (exp (- (b * x)) * exp (- (b * (y - x))))) by (apply Rmult_le_compat_l; assumption).
+      lra.
 Qed.
 
 (* ------------------------------------------------------------------------------------------ *)
@@ -406,6 +453,39 @@ Proof.
   exists (gen_voce_dR Q b x). apply Hd.
 Qed.
 Print Assumptions C19_voce_root_exists_unique.
+
+(* MONOTONE NEWTON beyond linear hardening (radial structure, concave non-decreasing hardening):
+   every iterate of the source's loop from theta = 0 stays left of the root, moves right, keeps
+   the residual >= 0 (the clamp is never active); an update that does not move is at the root *)
+Theorem C19_radial_newton_monotone : forall lam sy dt p Rh dRh ps,
+    uniform lam ps -> 0 < lam -> 0 < phi Rops ps 0 -> (forall x, 0 <= dRh x) ->
+    (forall x y, Rh y <= Rh x + dRh x * (y - x)) ->
+    forall theta_star, 0 <= theta_star -> resid Rops Rh None dt sy (mkPoint ps p) theta_star = 0 ->
+    forall n, let th := Nat.iter n (newtonG sy dt p Rh dRh ps) 0 in
+      0 <= th <= theta_star /\ th <= newtonG sy dt p Rh dRh ps th /\
+      0 <= resid Rops Rh None dt sy (mkPoint ps p) th /\
+      (newtonG sy dt p Rh dRh ps th = th -> resid Rops Rh None dt sy (mkPoint ps p) th = 0).
+Proof. intros; eapply radial_newton_monotone; eauto. Qed.
+Print Assumptions C19_radial_newton_monotone.
+
+(* the same for the source's Voce law, with the root supplied by the existence theorem *)
+Theorem C19_voce_radial_newton_monotone : forall Q b lam sy dt p ps, 0 <= Q -> 0 < b ->
+    uniform lam ps -> 0 < lam -> 0 < phi Rops ps 0 ->
+    0 < sy + gen_voce_R Q b p -> 0 < phi Rops ps 0 - sy - gen_voce_R Q b p ->
+    exists theta_star, 0 <= theta_star /\
+      resid Rops (gen_voce_R Q b) None dt sy (mkPoint ps p) theta_star = 0 /\
+      forall n, let th := Nat.iter n (newtonG sy dt p (gen_voce_R Q b) (gen_voce_dR Q b) ps) 0 in
+        0 <= th <= theta_star /\ th <= newtonG sy dt p (gen_voce_R Q b) (gen_voce_dR Q b) ps th /\
+        0 <= resid Rops (gen_voce_R Q b) None dt sy (mkPoint ps p) th.
+Proof.
+  intros Q b lam sy dt p ps HQ Hb Hu Hl Hp HK HA.
+  destruct (C19_voce_root_exists_unique Q b sy dt p ps HQ Hb (unif_nonneg lam ps Hu Hl) Hp HK HA) as [ts [H0 [Hr _]]].
+  destruct gen_hardening_concave as [_ Hv]. destruct (Hv Q b HQ Hb) as [Hd Hc].
+  exists ts. split; [exact H0|]. split; [exact Hr|]. intro n.
+  destruct (radial_newton_monotone lam sy dt p (gen_voce_R Q b) (gen_voce_dR Q b) ps Hu Hl Hp Hd Hc ts H0 Hr n) as [A [B [C _]]].
+  cbv zeta. repeat split; try apply A; assumption.
+Qed.
+Print Assumptions C19_voce_radial_newton_monotone.
 
 (* in particular for the Voce law as the source defines it *)
 Theorem C19_voce_root_unique : forall Q b lam sy dt p ps, 0 <= Q -> 0 < b ->
